@@ -11,7 +11,7 @@
    statically invalid member (own error, own id or null), [call_objs calls rs] pairs the
    i-th valid call with the i-th reply under the CALLER'S raw id text. *)
 From Coq Require Import List NArith ZArith Bool.
-From JV Require Import Bytes Msg Bridge BridgeProofs.
+From JV Require Import Bytes Msg Bridge BridgeProofs BridgeMore.
 Import ListNotations.
 Local Open Scope N_scope.
 
@@ -143,3 +143,97 @@ Print Assumptions c18_alone_is_routed.
 Theorem c18_table_inner_ok : forall known tbl, inner_ok (table_inner known tbl).
 Proof. exact table_inner_ok. Qed.
 Print Assumptions c18_table_inner_ok.
+
+(* Handler invocations over the concrete local server [table_inner]: [handler_log] is the
+   log of (method, params) handler runs of the Batch the bridge issued for one HTTP request
+   ([table_run] = [table_inner] with that log; [c18_table_run_is_table_inner]).  A request
+   stopped by the gate or with an undecodable body runs no handler; otherwise the log is,
+   in order, exactly one entry per member that is valid and names a known method ([runs]):
+   the entry of the i-th member sits at the position given by the number of running members
+   before it; statically invalid members are never among them. *)
+Theorem c18_invoked_once : forall known tbl next meth ct has_hook has_get body,
+  let log := handler_log known tbl next meth ct has_hook has_get body in
+  (gate meth ct has_hook has_get <> GPass -> log = []) /\
+  (parse_requests body = None -> log = []) /\
+  (forall ps, gate meth ct has_hook has_get = GPass -> parse_requests body = Some ps ->
+     log = map (fun p => (pr_method p, pr_params p)) (filter (runs known) ps) /\
+     length log = length (filter (runs known) ps) /\
+     (forall i p, nth_error ps i = Some p -> runs known p = true ->
+        nth_error log (length (filter (runs known) (firstn i ps))) = Some (pr_method p, pr_params p)) /\
+     (forall p, In p ps -> pr_error p <> None -> ~ In p (filter (runs known) ps)) /\
+     (forall p, In p ps -> pr_error p = None -> pr_method p <> [] -> is_known known (pr_method p) = true ->
+        In p (filter (runs known) ps))).
+Proof. exact invoked_once. Qed.
+Print Assumptions c18_invoked_once.
+
+Theorem c18_table_run_is_table_inner : forall known tbl specs next,
+  fst (table_run known tbl next specs) = table_inner known tbl next specs /\
+  map snd (snd (table_run known tbl next specs)) = invoked known specs.
+Proof. exact table_run_is_table_inner. Qed.
+Print Assumptions c18_table_run_is_table_inner.
+
+(* 204 iff the body held no call and no invalid member; 200 iff at least one response
+   object; no other status for a decodable body *)
+Theorem c18_status_iff : forall inner, inner_ok inner ->
+  forall next body ps st b, parse_requests body = Some ps ->
+  sv_out (serve_internal inner next body) = OResp st b ->
+  (st = 204%Z <-> filter is_invalid ps = [] /\ filter is_call ps = []) /\
+  (st = 200%Z <-> shape_objs b <> []) /\
+  (st = 200%Z <-> (exists p, In p ps /\ (is_invalid p = true \/ is_call p = true))) /\
+  (st = 204%Z -> b = BEmpty) /\
+  (st = 200%Z \/ st = 204%Z).
+Proof. exact status_iff. Qed.
+Print Assumptions c18_status_iff.
+
+(* ANY number of concurrent POSTs [pss] on one bridge: their Batch calls draw ids from one
+   counter in any interleaving [sched] (a list of party indices); [pool] is the shared
+   reply stream in any order.  All internal ids are distinct across all parties; party k is
+   routed exactly the replies carrying its own ids (none of any other party's), and its
+   response objects are its own static errors plus its own calls' replies under its own id
+   texts - whatever ids the other parties' callers used. *)
+Theorem c18_isolation_n : forall pss next sched pool idss next',
+  allocN next (map need_of pss) sched = (idss, next') ->
+  (forall i, In i (concat idss) -> In i (map rp_id pool)) ->
+  length idss = length pss /\ NoDup (concat idss) /\
+  (forall x, In x (concat idss) -> next <= x < next') /\
+  forall k ps, nth_error pss k = Some ps ->
+    exists ids rs,
+      nth_error idss k = Some ids /\ NoDup ids /\ length ids = length (filter is_call ps) /\
+      route ids pool = Some rs /\ map rp_id rs = ids /\
+      (forall r, In r rs -> In r pool /\ In (rp_id r) ids /\
+         forall k' ids', k' <> k -> nth_error idss k' = Some ids' -> ~ In (rp_id r) ids') /\
+      exists st b, post_routed ps ids pool = Some (OResp st b) /\
+        shape_objs b = map err_obj (filter is_invalid ps) ++ call_objs (filter is_call ps) rs.
+Proof. exact isolation_n. Qed.
+Print Assumptions c18_isolation_n.
+
+(* The same with the reply stream the server produces: every request (internal id, spec)
+   sent by any party is answered once with [ans id spec] (whatever its handler answered),
+   the replies arriving in any order.  Party k's response is its own static errors followed
+   by, for its j-th call, the answer to ITS OWN j-th request under the caller's id text. *)
+Theorem c18_isolation_n_answers : forall ans pss next sched pool idss next',
+  allocN next (map need_of pss) sched = (idss, next') ->
+  Permutation.Permutation pool (map (answer_of ans) (all_sent pss idss)) ->
+  forall k ps, nth_error pss k = Some ps ->
+    exists ids st b,
+      nth_error idss k = Some ids /\ length ids = length (filter is_call ps) /\
+      post_routed ps ids pool = Some (OResp st b) /\
+      shape_objs b = map err_obj (filter is_invalid ps) ++ owed_calls ans ps ids /\
+      map ro_id (shape_objs b) = map ro_id (map err_obj (filter is_invalid ps)) ++ map pr_id (filter is_call ps).
+Proof. exact isolation_n_answers. Qed.
+Print Assumptions c18_isolation_n_answers.
+
+(* ids drawn by any n-party interleaving: as many as asked for per party, all fresh *)
+Theorem c18_ids_fresh_n : forall sched next need idss n,
+  allocN next need sched = (idss, n) ->
+  map (@length N) idss = need /\ n = next + N.of_nat (sum_nat need) /\
+  (forall x, In x (concat idss) -> next <= x < n) /\ NoDup (concat idss).
+Proof. exact allocN_spec. Qed.
+Print Assumptions c18_ids_fresh_n.
+
+(* the two-party allocation of c18_isolation is the n = 2 instance of allocN *)
+Theorem c18_alloc2_is_allocN : forall sched next na nb a b n,
+  alloc2 next na nb sched = (a, b, n) ->
+  allocN next [na; nb] (map (fun w : bool => if w then 0%nat else 1%nat) sched) = ([a; b], n).
+Proof. exact alloc2_is_allocN. Qed.
+Print Assumptions c18_alloc2_is_allocN.
